@@ -1133,3 +1133,28 @@ Proof.
   transitivity (cold (snd pq) (fst pq) * (snd (phi pq) * get4 (kron (den_word (prim' (fst (fst (phi pq))))) (den_word (prim' (snd (fst (phi pq)))))) i j)); [ring|].
   rewrite He. ring.
 Qed.
+
+Lemma jw_step_fun_Z : forall k phi dom (c : list nat -> Z) spre p' q' t, List.length spre = k ->
+  jw_step_fun ZRing k phi dom c (spre ++ p' :: q' :: t)
+  = sumZ (map (fun pq => if pair_eqb (fst (phi pq)) (p', q') then snd (phi pq) * c (spre ++ snd pq :: fst pq :: t) else 0) dom).
+Proof.
+  intros k phi dom c spre p' q' t Hk. unfold jw_step_fun. subst k.
+  rewrite skipn_app, Nat.sub_diag, skipn_all, firstn_app, Nat.sub_diag, firstn_all. cbn [skipn firstn app]. rewrite app_nil_r.
+  apply lsum_Z.
+Qed.
+
+(* one exchange with the generated rule, semantically: for every environment (spre, t) the two-site block of the new
+   coefficient function is F . (two-site block of the old one) . F^T *)
+Theorem jw_step_block_conj_proof : forall (prim prim' : nat -> jw_word) phi dom dom' k (c : list nat -> Z) spre t,
+  List.length spre = k -> NoDup dom' -> (forall pq, In pq dom -> In (fst (phi pq)) dom') ->
+  (forall pq, In pq dom -> phi_conj_at prim prim' phi pq) ->
+  forall i j, (i < 4)%nat -> (j < 4)%nat ->
+  sumZ (map (fun x' => jw_step_fun ZRing k phi dom c (spre ++ fst x' :: snd x' :: t)
+                       * get4 (kron (den_word (prim' (fst x'))) (den_word (prim' (snd x')))) i j) dom')
+  = fsgn i * fsgn j * sumZ (map (fun pq => c (spre ++ snd pq :: fst pq :: t)
+                                           * get4 (kron (den_word (prim (snd pq))) (den_word (prim (fst pq)))) (sw4 i) (sw4 j)) dom).
+Proof.
+  intros prim prim' phi dom dom' k c spre t Hk ND Him Hgood i j Hi Hj.
+  rewrite <- (jw_block_conj_proof prim prim' phi dom dom' (fun q p => c (spre ++ q :: p :: t)) ND Him Hgood i j Hi Hj).
+  apply sumZ_map_ext. intros [p' q']. cbn [fst snd]. now rewrite (jw_step_fun_Z k phi dom c spre p' q' t Hk).
+Qed.
